@@ -12,7 +12,7 @@ from .dataflow import own_nodes, own_statements, params_of
 from .match import Expander, norm, text
 from .report import Report
 from .rules_types import Flow, scalar_types, tloc
-from .source import AnalysisError, Project
+from .source import AnalysisError, Project, dotted
 
 TYPES = D.TYPES
 
@@ -667,3 +667,141 @@ def z_r7_aware_values_kept(p: Project, rep: Report):
                 rep.note(f"Z-R7 undecided: {h.qualname} returns {rtxt[:80]}")
     if n == 0:
         rep.note("Z-R7 undecided: no returning path in the native readers")
+
+
+def _pred_eval(e, env):
+    """value of a constant predicate over the integer variables in env (Compare / BoolOp / not / range / abs / int
+    literals only); raises ValueError for anything else"""
+    if isinstance(e, ast.Constant) and isinstance(e.value, (int, bool)):
+        return e.value
+    if isinstance(e, ast.Name) and e.id in env:
+        return env[e.id]
+    if isinstance(e, ast.UnaryOp) and isinstance(e.op, ast.USub):
+        return -_pred_eval(e.operand, env)
+    if isinstance(e, ast.UnaryOp) and isinstance(e.op, ast.Not):
+        return not _pred_eval(e.operand, env)
+    if isinstance(e, ast.BoolOp):
+        vs = [_pred_eval(v, env) for v in e.values]
+        return all(vs) if isinstance(e.op, ast.And) else any(vs)
+    if isinstance(e, ast.Call) and isinstance(e.func, ast.Name) and e.func.id == "range" and not e.keywords:
+        return range(*[_pred_eval(a, env) for a in e.args])
+    if isinstance(e, ast.Call) and isinstance(e.func, ast.Name) and e.func.id == "abs" and len(e.args) == 1:
+        return abs(_pred_eval(e.args[0], env))
+    if isinstance(e, (ast.Tuple, ast.List, ast.Set)):
+        return [_pred_eval(x, env) for x in e.elts]
+    if isinstance(e, ast.Compare):
+        left = _pred_eval(e.left, env)
+        for op, c in zip(e.ops, e.comparators):
+            right = _pred_eval(c, env)
+            r = {ast.Lt: lambda a, b: a < b, ast.LtE: lambda a, b: a <= b, ast.Gt: lambda a, b: a > b, ast.GtE: lambda a, b: a >= b, ast.Eq: lambda a, b: a == b, ast.NotEq: lambda a, b: a != b, ast.In: lambda a, b: a in b, ast.NotIn: lambda a, b: a not in b}.get(type(op))
+            if r is None or not r(left, right):
+                return False if r is not None else (_ for _ in ()).throw(ValueError("op"))
+            left = right
+        return True
+    raise ValueError(ast.dump(e)[:40])
+
+
+def z_r8_offset_domain(p: Project, rep: Report):
+    rep.rule("Z-R8", "every constant range test on the offset hours between the regex and the timedelta (DateTime.parse_gmt_offset, utils.gmt_offset) admits all of -12..+14, the offsets in civil use (UTC-12 Baker Island to UTC+14 Line Islands): a narrower test refuses texts the notation denotes")
+    from .flat import flat
+
+    scal, _ = scalar_types(p)
+    dt = scal["DateTime"]
+    c, pfn0 = dt.find_method("parse_gmt_offset")
+    units = [("ofxtools.utils", "gmt_offset", p.get_function("ofxtools.utils", "gmt_offset").node)]
+    if pfn0 is not None:
+        units.append((TYPES, "DateTime.parse_gmt_offset", flat(p, TYPES, pfn0, dt)))
+    need = set(range(-12, 15))
+    n = 0
+    for modname, label, fn in units:
+        rel = p.module(modname).relpath
+        for st in ast.walk(fn):
+            if isinstance(st, ast.Assert):
+                test, admit_when = st.test, True
+            elif isinstance(st, ast.If) and st.body and isinstance(st.body[-1], ast.Raise) and not st.orelse:
+                test, admit_when = st.test, False
+            else:
+                continue
+            names = sorted({x.id for x in ast.walk(test) if isinstance(x, ast.Name) and x.id not in ("range", "abs")})
+            if len(names) != 1 or "hour" not in names[0].lower():
+                continue
+            try:
+                admitted = {h for h in range(-40, 41) if bool(_pred_eval(test, {names[0]: h})) is admit_when}
+            except (ValueError, TypeError):
+                rep.note(f"Z-R8 undecided: {label}: test {text(test)[:60]} not evaluated")
+                continue
+            n += 1
+            missing = sorted(need - admitted)
+            rep.check("Z-R8", f"{label}:{text(test)[:40]}", not missing, f"the test {text(test)} refuses offset hours {missing}: date-times written in those zones (e.g. [+14:LINT]) are rejected although the notation denotes them" if missing else "", f"{rel}:{st.lineno}")
+    rep.unit("offset_range_tests", n)
+    if n == 0:
+        rep.note("Z-R8 undecided: no constant range test on the offset hours found")
+
+
+_MUTATORS = {"setdefault", "update", "append", "add", "pop", "popitem", "clear", "extend", "insert", "remove", "discard", "__setitem__"}
+
+
+def _module_tables(p: Project, modname: str):
+    """{name: stmt} of module-level names bound to a mutable container"""
+    out = {}
+    for st in p.module(modname).tree.body:
+        tg = st.targets[0] if isinstance(st, ast.Assign) and len(st.targets) == 1 else (st.target if isinstance(st, ast.AnnAssign) and st.value is not None else None)
+        if not isinstance(tg, ast.Name):
+            continue
+        v = st.value
+        if isinstance(v, (ast.Dict, ast.List, ast.Set, ast.DictComp, ast.ListComp, ast.SetComp)) or (isinstance(v, ast.Call) and (dotted(v.func) or "").split(".")[-1] in ("dict", "list", "set", "defaultdict", "OrderedDict", "WeakValueDictionary", "WeakKeyDictionary", "deque")):
+            out[tg.id] = st
+    return out
+
+
+def _written_in_functions(p: Project, modname: str, name: str):
+    """first statement inside a function of the module that changes the module-level container `name` in place"""
+    for fnode in ast.walk(p.module(modname).tree):
+        if not isinstance(fnode, (ast.FunctionDef, ast.Lambda)):
+            continue
+        for x in ast.walk(fnode):
+            if isinstance(x, ast.Subscript) and isinstance(x.ctx, (ast.Store, ast.Del)) and isinstance(x.value, ast.Name) and x.value.id == name:
+                return x
+            if isinstance(x, ast.Call) and isinstance(x.func, ast.Attribute) and x.func.attr in _MUTATORS and isinstance(x.func.value, ast.Name) and x.func.value.id == name:
+                return x
+    return None
+
+
+def z_r9_no_value_memo(p: Project, rep: Report):
+    rep.rule("Z-R9", "what the date-time writer and readers emit is computed from the value at hand: none of them (helpers inlined) reads a module-level container that code of the same module fills at run time.  A memo of formatted offsets / parsed zones is keyed by something coarser than the value (the zone's name, its str()), and zones that share the key but not the offset - dateutil/zoneinfo zones across a DST change, two fixed offsets given one name - are then written with the offset of whichever value came first: the text denotes another instant")
+    from .flat import flat
+
+    scal, _ = scalar_types(p)
+    units = [("format_datetime", flat(p, TYPES, p.get_function(TYPES, "format_datetime").node), p.get_function(TYPES, "format_datetime").node)]
+    for cname in ("DateTime", "Time"):
+        ci = scal[cname]
+        for mname in ("parse_gmt_offset", "normalize_to_gmt"):
+            c, f0 = ci.find_method(mname)
+            if f0 is not None:
+                units.append((f"{cname}.{mname}", flat(p, TYPES, f0, ci), f0))
+        for fam in ("convert", "unconvert"):
+            for key, h in D.family(ci, fam).table.items():
+                units.append((f"{cname}.{h.fn.name}", h.ffn, h.fn))
+    tables = {TYPES: _module_tables(p, TYPES), "ofxtools.utils": _module_tables(p, "ofxtools.utils")}
+    n = 0
+    seen = set()
+    for label, fn, fn0 in units:
+        if label in seen:
+            continue
+        seen.add(label)
+        n += 1
+        bad = None
+        for x in ast.walk(fn):
+            modname = name = None
+            if isinstance(x, ast.Name) and isinstance(x.ctx, ast.Load) and x.id in tables[TYPES]:
+                modname, name = TYPES, x.id
+            elif isinstance(x, ast.Attribute) and isinstance(x.value, ast.Name) and x.value.id == "utils" and x.attr in tables["ofxtools.utils"]:
+                modname, name = "ofxtools.utils", x.attr
+            if name is None:
+                continue
+            w = _written_in_functions(p, modname, name)
+            if w is not None:
+                bad = (name, modname, w)
+                break
+        rep.check("Z-R9", f"{label}:no-run-time-table", bad is None, f"reads the module-level container {bad[0]}, which {p.module(bad[1]).relpath}:{bad[2].lineno} fills at run time ({text(bad[2])[:50]}): the result for one value depends on which values were converted before it - entries made for one zone answer for every zone that shares the key" if bad else "", tloc(p, fn0))
+    rep.unit("date_routines_checked_for_memo_tables", n)
